@@ -628,7 +628,7 @@ def rand_pairs_cases(rng, n, lat, rs_pts):
 # =====================================================================================
 # judging
 def _cover_class(rec, meta):
-    return "radius_" + ("small" if meta["radius"] < 0.01 else "large" if meta["radius"] > 45 else "mid")
+    return "radius_" + ("small" if meta["radius"] < 0.01 else "above_90" if meta["radius"] > 90 else "large" if meta["radius"] > 45 else "mid")
 
 
 def _pairs_class(rec, clause):
